@@ -11,8 +11,9 @@
 
    Reading choices (weakest reading where the statement is silent, DESIGN section 3 rule 4):
    scheme-less link *with* a port, percent-escaped segments, and paths of two or more
-   segments containing an empty segment (trailing or doubled slash) are `open`: the
-   implementation must not panic on them but either outcome is accepted. *)
+   segments ending in one empty segment (a trailing slash, which many routers ignore) are `open`:
+   the implementation must not panic on them but either outcome is accepted.  An empty segment
+   anywhere else (leading or doubled slash) makes the path "another path shape": an error. *)
 EXTENDS Integers, Sequences, FiniteSets, TLC
 
 CONSTANTS MaxSegs,      \* longest path, in segments
@@ -43,7 +44,8 @@ Resolve(l) ==
   ELSE IF Len(l.segs) = 0 THEN Err                              \* bare host
   ELSE IF HasClass(l, "escape") THEN Open
   ELSE IF Len(l.segs) = 1 THEN (IF l.segs[1] = "empty" THEN Err ELSE User(1))
-  ELSE IF HasClass(l, "empty") THEN Open
+  ELSE IF \E i \in 1..(Len(l.segs) - 1) : l.segs[i] = "empty" THEN Err   \* a doubled or leading slash is another path shape
+  ELSE IF HasClass(l, "empty") THEN Open                                   \* one trailing slash
   ELSE IF Len(l.segs) = 2 /\ l.segs[1] = "joinchat" THEN Invite(2)
   ELSE Err
 
